@@ -4,7 +4,7 @@
 (* and which direction grid) and a concrete REPRESENTATION (dimension order, memory layout, dtype width, *)
 (* where the stored direction sequence starts, its orientation, chunking).  Actions:                    *)
 (*   representation changes  Transpose, Layout, Cast, RollDir, FlipDir, SortDir, Chunk                   *)
-(*   in-place edits          SetEfth(v)  (ds['efth'] = ...),  SetDir(g)  (obj['dir'] = ...)             *)
+(*   in-place edits          SetEfth(v)  (ds['efth'] = ...),  SetDir(g)  (obj['dir'] = ...), SetFreq       *)
 (*   calls                   Access (first touch of the accessor), Call(op), CallUnknown, OtherShape     *)
 (* In this abstract specification the VALUE OBSERVED BY A CALL IS A FUNCTION OF THE CURRENT CONTENTS AND *)
 (* THE OPERATION ONLY (obs), and a call leaves the object as it was (frame condition).  Mechanisms.tla   *)
@@ -20,7 +20,7 @@ CONSTANTS OPS,        \* operation names
 
 RepActs == {"transpose_df", "transpose_lead", "fortran", "strided", "cast32", "roll1", "roll_seam", "flip", "sortdir",
             "chunk_lead", "chunk_freq", "chunk_dir", "chunk_all1"}
-EditActs == {"access", "call_other", "set_efth", "set_dir", "call_unknown", "other_shape"}
+EditActs == {"access", "call_other", "set_efth", "set_dir", "set_freq", "call_unknown", "other_shape"}
 ASSUME REPACTS \subseteq RepActs /\ EDITACTS \subseteq EditActs
 
 VARIABLES rep,     \* representation record
@@ -31,10 +31,10 @@ VARIABLES rep,     \* representation record
 vars == <<rep, ver, path, obs, frame>>
 
 Rep0 == [dimorder |-> "lead_freq_dir", layout |-> "C", width |-> 64, roll |-> 0, flip |-> FALSE, chunks |-> "none"]
-Init == rep = Rep0 /\ ver = [efth |-> 1, grid |-> 1] /\ path = <<>> /\ obs = <<>> /\ frame = TRUE
+Init == rep = Rep0 /\ ver = [efth |-> 1, grid |-> 1, fgrid |-> 1] /\ path = <<>> /\ obs = <<>> /\ frame = TRUE
 
 Rec(a, x) == [act |-> a, arg |-> x]
-Apply(op, v) == <<op, v.efth, v.grid>>          \* the abstract result: contents and operation, nothing else
+Apply(op, v) == <<op, v.efth, v.grid, v.fgrid>>          \* the abstract result: contents and operation, nothing else
 
 DoRep(a) ==
   /\ a \in REPACTS /\ Len(path) < MAXLEN /\ obs = <<>>
@@ -61,6 +61,7 @@ DoEdit(a) ==
         /\ path' = Append(path, Rec(a, 0)) /\ UNCHANGED ver          \* calls do not change contents (frame)
      \/ /\ a = "set_efth" /\ \E v \in (1..NVER) \ {ver.efth} : ver' = [ver EXCEPT !.efth = v] /\ path' = Append(path, Rec(a, v))
      \/ /\ a = "set_dir" /\ \E g \in (1..NGRID) \ {ver.grid} : ver' = [ver EXCEPT !.grid = g] /\ path' = Append(path, Rec(a, g))
+     \/ /\ a = "set_freq" /\ ver' = [ver EXCEPT !.fgrid = 3 - @] /\ path' = Append(path, Rec(a, 3 - ver.fgrid))     \* obj['freq'] = ... (two frequency grids)
   /\ UNCHANGED <<rep, obs, frame>>
 
 Call(op) ==
